@@ -40,6 +40,7 @@ const (
 	opStat    = 0x1230
 	opRead    = 0x1227
 	opCrit    = 0x1225
+	opReadCD  = 0x1226
 
 	szOpen    = 16
 	szOpenDir = 4
@@ -51,6 +52,14 @@ func encode(op uint16, path string) []byte {
 	binary.BigEndian.PutUint16(b[0:], op)
 	binary.BigEndian.PutUint16(b[2:], uint16(len(path)))
 	return append(b, path...)
+}
+
+func encodeReadCD(start, count uint32) []byte {
+	b := make([]byte, 16)
+	binary.BigEndian.PutUint16(b[0:], opReadCD)
+	binary.BigEndian.PutUint32(b[4:], start)
+	binary.BigEndian.PutUint32(b[8:], count)
+	return b
 }
 
 func encodeRead(op uint16, n uint32, off uint64) []byte {
@@ -151,6 +160,7 @@ type scenario struct {
 	N      int       `json:"n,omitempty"`       // active: number of requests
 	Path   string    `json:"path,omitempty"`    // path of the STAT requests
 	Idle   string    `json:"idle,omitempty"`    // disabled: length of the silence
+	Op     string    `json:"op,omitempty"`      // active: what the requests are (default stat; crit, cd, read, mix need Held)
 	LateNs int64     `json:"late_ns,omitempty"` // active: the server goroutine is held this long between reading a command and reading its path (busy scheduler)
 }
 
@@ -344,6 +354,17 @@ func genScenarios(r *rand.Rand, thorough bool) []*scenario {
 					sc.Held, sc.Reads = true, true
 				}
 				add(sc, T)
+			}
+		}
+		// (4c) active connection made of reads of the open file (what a console playing an image sends:
+		// nothing but critical reads, for hours), then silent
+		for _, op := range []string{"crit", "cd", "read", "mix"} {
+			for _, pm := range []int64{500, 990} {
+				n := pick(300, 3000)
+				if T > time.Second {
+					n = pick(100, 500)
+				}
+				add(&scenario{Kind: fmt.Sprintf("active-%s-0.%03dT", op, pm), Op: op, DNs: int64(T) / 1000 * pm, N: n/2 + r.Intn(n/2), Held: true, Reads: pm == 990, Path: randPath(r)}, T)
 			}
 		}
 		// (5) open file and open directory held when the cut happens
@@ -673,7 +694,20 @@ func runScenario(t *testing.T, sc *scenario) *outcome {
 		d := time.Duration(sc.DNs)
 		for i := 0; i < sc.N; i++ {
 			sleepUntil(t0.Add(d))
-			resp, stage, err := x.request(stat, szStat)
+			req, want := stat, szStat
+			op := sc.Op
+			if op == "mix" {
+				op = []string{"crit", "stat", "cd", "read"}[i%4]
+			}
+			switch op {
+			case "crit":
+				req, want = encodeRead(opCrit, 64, uint64(i%4096)), 64
+			case "cd":
+				req, want = encodeReadCD(uint32(i%2), 1), 2048
+			case "read":
+				req, want = encodeRead(opRead, 100, uint64(i%4096)), 104
+			}
+			resp, stage, err := x.request(req, want)
 			if err != nil {
 				rule := "active-cut"
 				x.failedRequest(rule, fmt.Sprintf("request %d/%d spaced %v (connection age %v = %.1f T)", i+1, sc.N, d, x.rel(time.Now()), float64(x.rel(time.Now()))/float64(T)),
